@@ -68,7 +68,7 @@ def exec_prop(pid, results, extra=None, n_quick=280, n_thorough=4000, more=(), f
 
 PROPS = {
     "C01": exec_prop("C01", {"R_C01": "mon", "R_C01d": "mon", "R_waits": "mon"}, more=["Properties/C01deps.v", "Properties/C01defer.v", "Properties/C02seal.v"]),
-    "C02": exec_prop("C02", {"R_C02": "mon", "R_calls": "mon", "R_waits": "mon"},
+    "C02": exec_prop("C02", {"R_C02": "mon", "R_calls": "mon", "R_waits": "mon"}, extra="callvars=1",
                      more=["Properties/C02calls.v", "Properties/C02seal.v", "Properties/C02for.v"], forloop=True),
     "C03": exec_prop("C03", {"R_C03": "mon", "R_C03s": "mon", "R_C14x": "mon", "R_C01": "mon", "R_calls": "mon"},
                      more=["Properties/C03fail.v", "Properties/C03status.v", "Properties/C14x.v", "Properties/C02calls.v",
